@@ -14,6 +14,10 @@
    events go through ONE plugin instance in ascending and (second instance) descending width.
    The spec mutant ~M_DepthBuffersDisjoint ("all depth buffers are windows of one backing array", Cap = 2) must be
    rejected by TLC (FieldSelect_mutant_sharedbuf.cfg) and accepted with the mechanism switched on.
+   EVENT KINDS: every ordinary case also runs as a CHILD event (built as processor.Spawn builds it) and as a
+   CHILD-PARENT event; a seeded sample of cases, grouped by selector list, runs end to end on a running pipeline
+   [split, keep_fields | remove_fields] with the documents as the elements of the split array.  The spec mutant
+   ~M_AllDocumentKindsFiltered ("only regular events are filtered") must be rejected by TLC.
 3. A difference is a violation record {plugin, kind, as_swap_delete_model, event, ...}; records matching a
    known finding are KNOWN-FINDING, everything else is a VIOLATION.
 """
@@ -26,6 +30,14 @@ import vlib
 LEVEL = "model_checking"
 PKGS = ["plugin/action/keep_fields", "plugin/action/remove_fields"]
 _INIT = re.compile(r"Finished computing initial states: (\d+) distinct state")
+
+
+def _has_junk(v):
+    if not isinstance(v, list):
+        return False
+    if v[0] == 0:
+        return any(v[i] == 9 or _has_junk(v[i + 1]) for i in range(1, len(v) - 1, 2))
+    return any(_has_junk(x) for x in v[1:])
 
 
 def run(ctx):
@@ -55,9 +67,15 @@ def run(ctx):
                              (mut.violated, mut.out[-1500:]))
         ctx.tlc_expect_ok("FieldSelect", "FieldSelect_mutant_sharedbuf.cfg", timeout=600, deadlock=False, count=False,
                           overrides={"M_DepthBuffersDisjoint": "TRUE"}, name="same scope, buffers disjoint (must pass)")
+        mk = ctx.tlc("FieldSelect", "FieldSelect_mutant_kinds.cfg", timeout=600, deadlock=False,
+                     name="mutant only regular events filtered (must be rejected)")
+        if mk.ok or mk.violated != "MutantKindInv":
+            raise vlib.Infra("spec mutant ~M_AllDocumentKindsFiltered was not rejected by TLC (%s)\n%s" %
+                             (mk.violated, mk.out[-1500:]))
         cex = re.search(r"State 2:.*?\n(.*?)\n\s*\n", mut.out, re.S)
         ctx.extra["spec_mutants_rejected"] = ["M_DepthBuffersDisjoint=FALSE: " +
-                                              (" ".join(cex.group(1).split())[:700] if cex else "?")]
+                                              (" ".join(cex.group(1).split())[:700] if cex else "?"),
+                                              "M_AllDocumentKindsFiltered=FALSE: MutantKindInv violated"]
         total = len(cases)
         ctx.extra["documents"] = docs
         ctx.rng.shuffle(cases)          # the whole exported scope is replayed in both tiers; the seed orders it
@@ -66,6 +84,22 @@ def run(ctx):
         f.write("\n".join(cases))
         f.write("\n")
 
+    # end-to-end sample: cases that share the selector list become the elements of one split array
+    e2e_path = os.path.join(ctx.scratch, "c18_e2e.ndjson")
+    groups = {}
+    for ln in cases[:40000]:
+        t = json.loads(ln)
+        if _has_junk(t[1]):
+            continue
+        groups.setdefault((t[0], json.dumps(t[2])), []).append(ln)
+    want_groups = 30 if ctx.tier == "quick" else 200
+    picked = [g[:12] for g in sorted(groups.values(), key=len, reverse=True)[:4 * want_groups]]
+    ctx.rng.shuffle(picked)
+    picked = picked[:want_groups]
+    with open(e2e_path, "w") as f:
+        for g in picked:
+            f.write(json.dumps(g) + "\n")
+
     recs = []
     per_plugin = {}
     for pkg in PKGS:
@@ -73,7 +107,7 @@ def run(ctx):
         binary = ctx.go_test_build(pkg)
         out = os.path.join(ctx.scratch, "c18_out_%s.json" % name)
         rc, txt = ctx.run_bin(binary, "^TestVerifC18$",
-                              env={"VERIF_CASES": path, "VERIF_OUT": out, "LOG_LEVEL": "error"}, timeout=3000)
+                              env={"VERIF_CASES": path, "VERIF_OUT": out, "VERIF_E2E": e2e_path, "LOG_LEVEL": "error"}, timeout=3000)
         if rc != 0 or not os.path.exists(out):
             raise vlib.Infra("C18 harness (%s) failed rc=%s:\n%s" % (name, rc, txt[-3000:]))
         r = json.load(open(out))
@@ -83,7 +117,9 @@ def run(ctx):
         if r["predictor_disagrees"]:
             raise vlib.Infra("harness %s: order predictor disagrees with the specification's transcription on %d cases" %
                              (name, r["predictor_disagrees"]))
-        per_plugin[name] = {k: r[k] for k in ("executed", "events", "wide_cases", "nontrivial", "reordering_predicted",
+        if r["e2e_groups"] != len(picked):
+            raise vlib.Infra("harness %s ran %d of %d end-to-end groups" % (name, r["e2e_groups"], len(picked)))
+        per_plugin[name] = {k: r[k] for k in ("executed", "events", "wide_cases", "e2e_groups", "e2e_documents", "nontrivial", "reordering_predicted",
                                               "mismatch_counts")}
         for m in r["mismatches"] or []:
             recs.append(m)
@@ -95,7 +131,7 @@ def run(ctx):
     ctx.rule = ("case = (JSON object with unique keys over the names a, b, 'a.b', 'a.b.a', 'b.a', <= 5 members, depth <= 3, leaf kinds 1 / \"s\" / "
                 "null / [] / [{\"a\":1}] / {}; list of 1-3 selectors of length <= 3 over the same names, written with "
                 "escaped dots, short-first / long-first / with a repeat), enumerated exhaustively by TLC per family (%s "
-                "cases); every case is run on the real keep_fields and remove_fields (Start + 2 x Do) and the encoded "
+                "cases); every case is run on the real keep_fields and remove_fields (Start + Do as regular event twice, as child event, as child-parent event) and the encoded "
                 "event compared token by token with the declarative expectation; cases with the marker member are widened "
                 "to 1/99/100/101/150/250 junk members per marker and run through one instance in ascending and one in "
                 "descending width (12 events). Non-trivial = (case, plugin) pairs whose "
@@ -109,6 +145,8 @@ def run(ctx):
         "element 0 of array x while keep_fields ignores such a path); that addressing mode is not judged here",
         "unique keys per object (as the property quantifies); objects have at most 5 members, so insane-json's map mode "
         "(> 16 members) is not exercised",
+        "time-out / unlock events (nil Root) are outside the property; child events are built as processor.Spawn builds them "
+        "(direct) or by the real split action on a running single-processor pipeline (sampled)",
         "selector strings use the documented backslash escape only (the undocumented '..' form of ParseFieldSelector is "
         "transcribed in the spec but not driven)",
     ]
